@@ -123,7 +123,11 @@ where
                         if header.remaining_len() != 0 {
                             return Poll::Ready(Err(Error::InvalidRemainingLength.into()));
                         }
-                        return Poll::Ready(Ok((2, Vec::new(), empty_packet)));
+                        return Poll::Ready(Ok((
+                            1 + 1 + *var_idx as usize,
+                            Vec::new(),
+                            empty_packet,
+                        )));
                     }
                     if header.remaining_len() == 0 {
                         return Poll::Ready(Err(Error::InvalidRemainingLength.into()));
